@@ -50,11 +50,18 @@ def cases(tier, seed):
             out.append(('order_%s_%s' % (pos, pl), dict(kind='order', pos=pos, place=pl)))
     for nm, tk, win in TAKES:
         out.append(('take_' + nm, dict(kind='take', take=tk, win=win)))
+    # take period on a grid with unequal steps (DST day) for an asset that starts later than the horizon
+    out.append(('take_dst_late_asset', dict(kind='take', take=(1, 6), win=(1, 9), freq=['d', '2021-03-26', '2021-03-30', 'CET'])))
+    out.append(('take_months_late_asset', dict(kind='take', take=(1, 3), win=(1, 3), freq=['MS', '2021-01-01', '2021-05-01', None], unit='d')))
+    # a window reaching beyond the horizon is the same as the window clipped to the horizon (identical problem, term by term)
+    for ex in ('contract', 'take_contract', 'storage', 'transport', 'multicommodity', 'plant', 'scaled_storage'):
+        for pl in (('both_ends',) if tier != 'thorough' else ('both_ends', 'start', 'end')):
+            out.append(('straddle_%s_%s' % (ex, pl), dict(kind='straddle', extra=ex, place=pl)))
     out.append(('takeperiod_outside', dict(kind='extra', extra='takeperiod', place='after')))
     # a coarse interval straddling the horizon counts with its covered part only (decided with the C13 machinery: option problem vs
     # fine problem + equalities, whose step lengths are the covered fine steps)
     out.append(('coarse_interval_straddles_start', dict(kind='coarse13', opt='coarse', kind13='contract', T=4, win=(-1, 5))))
-    out.append(('coarse_interval_straddles_end', dict(kind='coarse13', opt='coarse', kind13='contract', T=5, win=(1, 8), ec=True)))
+    out.append(('coarse_interval_straddles_end', dict(kind='coarse13', opt='coarse', kind13='contract', T=5, win=(2, 9), ec=True)))
     return out
 
 
@@ -140,7 +147,68 @@ def _c13_kw(kw):
     return kw
 
 
+STRADDLE = {'both_ends': ((-2, 6), (0, 4)), 'start': ((-3, 3), (0, 3)), 'end': ((1, 9), (1, 4))}
+
+
+def build_straddle(D, extra, place, T=4):
+    eao = lift.import_eao()
+    tg = shapes.grid(T)
+    nA, nB = shapes.nodes('A', 'B')
+    prices = shapes.prices_for(D, ['p', 'q'], T)
+    wide, clipped = STRADDLE[place]
+    out = []
+    for w in (wide, clipped):
+        ex = mk_extra(D, extra, T, tg, nA, nB, w)
+        if extra == 'take_contract':
+            # the take period itself stays the same (inside the horizon); only the asset window differs
+            ex.min_take = shapes.mk_take(tg, 1, 3, D('ex_mintake', hi=0))
+        out.append(eao.portfolio.Portfolio(base_assets(D, T, tg, nA, nB) + [ex]))
+    return out[0], out[1], tg, prices
+
+
+def run_straddle(rec, seed, extra, place):
+    from .c10 import compare
+
+    def build(D):
+        w, c, tg, prices = build_straddle(D, extra, place)
+        return w.setup_optim_problem(prices, tg), c.setup_optim_problem(prices, tg)
+    res = lift.explore_build(build, level='A')
+    rec.paths = len(res)
+    validated = False
+    for pi, (path, D) in enumerate(res):
+        P = 'p%d' % pi
+        if path.exc is not None:
+            if common.is_rejection(path.exc):
+                rec.rejected_paths += 1
+                continue
+            common.crash_candidate(rec, P + '/crash', path, D, info=dict(kind='crash'))
+            continue
+        a, b = path.result
+        base = list(D.pre) + path.pc + sym.atom_constraints()
+        if rec.vacuity(P, base) is None:
+            continue
+        rec.twin(P, base, z3.BoolVal(False))
+        goals = compare(rec, P, base, a, b)
+        nm = P + '/wide_window_equals_clipped_window'
+        if not goals:
+            rec.obligations.append(dict(name=nm, verdict='unsat', secs=0, form='Q2'))
+            rec.distinct.add(nm)
+        else:
+            rec.prove_each(nm, base, [(lab, g, dict(kind='straddle', label=lab)) for lab, g in goals], form='Q2')
+        if not validated:
+            from .. import obs
+            env = common.generic_point(base, D.names, seed)
+            if env is not None:
+                for n_ in D.names:
+                    env.setdefault(n_, 0.0)
+                rec.validations.append(dict(env=env, lifted=obs.to_jsonable(dict(wide=obs.problem_obs(a)), env)))
+                validated = True
+    return rec.result()
+
+
 def run_case(case_id, tier, seed, kind, **kw):
+    if kind == 'straddle':
+        return run_straddle(lpsem.Rec(PROP, case_id), seed, **kw)
     if kind == 'coarse13':
         from . import c13
         res = c13.run_case(case_id, tier, seed, **_c13_kw(kw))
@@ -200,8 +268,8 @@ def run_window(rec, seed, shape, kw):
     return rec.result()
 
 
-def run_take(rec, seed, take, win):
-    kw = dict(T=4, take=take, win=win)
+def run_take(rec, seed, take, win, freq='h', unit='h'):
+    kw = dict(T=4, take=take, win=win, freq=tuple(freq) if isinstance(freq, list) else freq, unit=unit)
     res = scen.explore('contract_take', kw, level='A', with_output=False)
     rec.paths = len(res)
     for pi, (path, D) in enumerate(res):
@@ -320,8 +388,16 @@ def observe(case, kwargs, env, rq):
         o = scen.observation(sc)
         return o
     if kind == 'take':
-        sc = scen.run(D, 'contract_take', dict(T=4, take=kw['take'], win=kw['win']), None, False, env=env)
+        fq = kw.get('freq', 'h')
+        sc = scen.run(D, 'contract_take', dict(T=4, take=kw['take'], win=kw['win'], freq=tuple(fq) if isinstance(fq, list) else fq, unit=kw.get('unit', 'h')), None, False, env=env)
         return embed_ref.observe(sc.sh, sc.op, env, rq)
+    if kind == 'straddle':
+        w, c, tg, prices = build_straddle(D, kw['extra'], kw['place'])
+        a = w.setup_optim_problem(prices, tg)
+        o = dict(wide=obs.problem_obs(a))
+        if rq.get('kind') == 'replay':
+            o['clipped'] = obs.problem_obs(c.setup_optim_problem(prices, tg))
+        return o
     w, wo, tg, prices, dropped = build_pair(D, kind, **kw)
     opw = w.setup_optim_problem(prices, tg)
     xw = common.concrete_x(env, len(opw.c))
@@ -359,6 +435,10 @@ def judge(case, kwargs, cand, ans):
         return None, ans['error']
     o = ans['obs']
     k = info.get('kind')
+    if k == 'straddle':
+        from .. import replay
+        d = replay.diff(o['wide'], o['clipped'])
+        return bool(d), 'the part of the window outside the horizon changes the problem: %s' % d
     if k == 'window':
         v = o['output']['dispatch'][info['col']][info['t']]
         # any x shows it: the output is linear in x, use the witness
